@@ -5,7 +5,7 @@ CONSTANTS
   Owners <- Owners2
   InitZones <- MC_OneZone
   InitSers <- MC_OneSer
-  Msgs <- MC_MsgsHist
+  Msgs <- Msgs1
   MaxMsgs = 2
 INVARIANTS TypeOK C12_AllOrNothing C12_Contents C12_PrereqOnCurrentZone C12_OneSOA C12_ApexNS C12_CnameAlone C12_SerialIffChanged C12_PseudoProseAgree
 CHECK_DEADLOCK FALSE
